@@ -14,6 +14,7 @@ int main(void)
     C(SSL_SESSION_TICKET_LIST_LEN) C(AES_BLOCKLEN) C(AES_IVLEN) C(SHA256_HASHLEN)
     C(SESS_TICKET_STATE_INIT) C(SESS_TICKET_STATE_RECVD_EXT) C(SESS_TICKET_STATE_USING_TICKET)
     C(PS_SUCCESS) C(PS_FAILURE) C(PS_ARG_FAIL) C(PS_LIMIT_FAIL) C(PS_MEM_FAIL)
+    C(MATRIXSSL_ERROR) C(SSL_ALERT_HANDSHAKE_FAILURE) C(SSL_ALERT_NONE) C(TLS_1_3_TICKET_LIFETIME)
     if (matrixSslOpen() < 0) return 2;
     printf("Definition k_matrixSessionTicketLen : Z := (%d)%%Z.\n", (int) matrixSessionTicketLen());
     printf("Definition k_psPadLenPwr2_57_16 : Z := (%d)%%Z.\n", (int) psPadLenPwr2(SSL_HS_MASTER_SIZE + 2 + 2 + 4 + 1, 16));
